@@ -4,9 +4,13 @@ import OcVerif.Model.Selector
 namespace Oc.Driver.Sel
 open Oc Oc.Sel
 
+/-- slot `i` of the harness is descriptor `i + fdBase` of the model: real descriptors are never 0,
+which matters because a missing TOKEN_FD entry makes `select` fall back to descriptor 0 -/
+def fdBase : Nat := 10
+
 def showK (k : List (Fd × KEnt)) : String :=
-  let rows := (k.map fun (fd, e) => (fd, s!"{fd}:{if e.r then "r" else ""}{if e.w then "w" else ""}:{e.tok}"))
-  let sorted := [0, 1, 2].flatMap (fun i => (rows.filter (·.1 == i)).map (·.2))
+  let rows := (k.map fun (fd, e) => (fd, s!"{fd - fdBase}:{if e.r then "r" else ""}{if e.w then "w" else ""}:{e.tok}"))
+  let sorted := [0, 1, 2].flatMap (fun i => (rows.filter (·.1 == i + fdBase)).map (·.2))
   joinWith "," sorted
 
 def kvOf (impl k : String) : Option String :=
@@ -22,30 +26,42 @@ structure D where
   /-- token of the latest read waiter / write waiter per descriptor -/
   rtok : List (Fd × Tok) := []
   wtok : List (Fd × Tok) := []
+  /-- descriptors on which a wait for writability was begun since the last poll -/
+  freshW : List Fd := []
+  /-- every (token, descriptor) pair used so far: a token stands for one coroutine, which waits on
+  one descriptor at a time; histories that reuse a token on a second descriptor are outside C20's
+  write-waiter expectation (TOKEN_FD maps a token to a single descriptor) -/
+  used : List (Tok × Fd) := []
 
 def wantSet (w : List (Fd × KEnt)) (fd : Fd) (f : KEnt → KEnt) : List (Fd × KEnt) :=
   let cur := (aget w fd).getD ⟨false, false, 0⟩
   let n := f cur
   if n.r || n.w then aset w fd n else adel w fd
 
+def insertSorted (x : Nat) : List Nat → List Nat
+  | [] => [x]
+  | y :: ys => if x ≤ y then x :: y :: ys else y :: insertSorted x ys
+def sortNat (l : List Nat) : List Nat := l.foldr insertSorted []
+
 def stepOp (d : D) (o io : String) : D :=
   let abn := (words io).any (fun w => w == "ABORT" || w == "HANG")
   if abn then { d with outs := d.outs ++ ["?"], fails := d.fails ++ [("C21", s!"[abort] {o}: {io}")] } else
   let op? : Option Op := match words o with
-    | ["ar", s, t] => some (.addRead (s.toNat?.getD 0) (t.toNat?.getD 0))
-    | ["aw", s, t] => some (.addWrite (s.toNat?.getD 0) (t.toNat?.getD 0))
-    | ["dr", s] => some (.delRead (s.toNat?.getD 0))
-    | ["dw", s] => some (.delWrite (s.toNat?.getD 0))
-    | ["d", s] => some (.del (s.toNat?.getD 0))
-    | ["close", s] => some (.close (s.toNat?.getD 0))
-    | ["ev", s] => some (.ev (s.toNat?.getD 0))
+    | ["ar", s, t] => some (.addRead ((s.toNat?.getD 0) + fdBase) (t.toNat?.getD 0))
+    | ["aw", s, t] => some (.addWrite ((s.toNat?.getD 0) + fdBase) (t.toNat?.getD 0))
+    | ["dr", s] => some (.delRead ((s.toNat?.getD 0) + fdBase))
+    | ["dw", s] => some (.delWrite ((s.toNat?.getD 0) + fdBase))
+    | ["d", s] => some (.del ((s.toNat?.getD 0) + fdBase))
+    | ["close", s] => some (.close ((s.toNat?.getD 0) + fdBase))
+    | ["ev", s] => some (.ev ((s.toNat?.getD 0) + fdBase))
     | _ => none
   match op? with
   | none => { d with outs := d.outs ++ ["BADOP"] }
   | some op =>
     let (s', ok, rd) := step d.st op
     let isEv := match op with | .ev _ => true | _ => false
-    let m := s!"res={if ok then "ok" else "err"}{if isEv then " rd=" ++ joinWith "," (rd.map toString) else ""} k={showK s'.K}"
+    let wr : List Tok := match op with | .ev fd => sortNat (writableToks d.st fd) | _ => []
+    let m := s!"res={if ok then "ok" else "err"}{if isEv then " rd=" ++ joinWith "," (rd.map toString) ++ " wr=" ++ joinWith "," (wr.map toString) else ""} k={showK s'.K}"
     -- what the API user has asked for so far
     let want := match op with
       | .addRead fd t => wantSet d.want fd (fun e => { e with r := true, tok := t })
@@ -57,7 +73,7 @@ def stepOp (d : D) (o io : String) : D :=
       | .ev _ => d.want
     -- C21 on the implementation's kernel table: interest = union of outstanding interests
     let ik := (kvOf io "k").getD ""
-    let wantK := joinWith "," ([0, 1, 2].flatMap (fun i => match aget want i with
+    let wantK := joinWith "," ([0, 1, 2].flatMap (fun i => match aget want (i + fdBase) with
       | some e => [s!"{i}:{if e.r then "r" else ""}{if e.w then "w" else ""}"] | none => []))
     let implK := joinWith "," (((ik.splitOn ",").filter (· ≠ "")).map (fun row => joinWith ":" ((row.splitOn ":").take 2)))
     let f21 := if implK == wantK then [] else [("C21", s!"[interest-mismatch] after `{o}`: OS interest {implK} but outstanding interests are {wantK}")]
@@ -70,15 +86,34 @@ def stepOp (d : D) (o io : String) : D :=
       | .addWrite fd t => aset d.wtok fd t
       | .delWrite fd => adel d.wtok fd | .del fd => adel d.wtok fd | .close fd => adel d.wtok fd
       | _ => d.wtok
-    let f20 := match op with
+    let freshW := match op with
+      | .addWrite fd _ => if (kvOf io "res").getD "" == "ok" then fd :: d.freshW.filter (· != fd) else d.freshW
+      | .delWrite fd => d.freshW.filter (· != fd) | .del fd => d.freshW.filter (· != fd) | .close fd => d.freshW.filter (· != fd)
+      | .ev _ => []
+      | _ => d.freshW
+    -- C20 for write waiters: a wait for writability begun since the last poll is woken by that poll
+    -- (sockets are writable), with its own token
+    let f20w := match op with
+      | .ev _ =>
+        let iwr := (((kvOf io "wr").getD "").splitOn ",").filterMap String.toNat?
+        d.freshW.flatMap (fun f => match aget d.wtok f with
+          | none => []
+          | some t =>
+            if iwr.contains t then []
+            else if d.used.any (fun p => p.1 == t && p.2 != f) then []
+            else if (aget d.rtok f).any (· != t) then
+              [("C20", s!"[shared-token] descriptor {f - fdBase}: write waiter {t} and read waiter {(aget d.rtok f).getD 0} share one registration; writable events reported [{(kvOf io "wr").getD ""}]")]
+            else [("C20", s!"[write-waiter-not-woken] descriptor {f - fdBase} is writable and coroutine {t} began waiting for that since the last poll, but the poll reported writable events only for [{(kvOf io "wr").getD ""}]")])
+      | _ => []
+    let f20 := f20w ++ match op with
       | .ev fd =>
         let ird := (kvOf io "rd").getD ""
         match aget rtok fd with
         | some t =>
           if ird == toString t then []
           else if (aget wtok fd).any (· != t) then
-            [("C20", s!"[shared-token] descriptor {fd}: read waiter {t} and write waiter {(aget wtok fd).getD 0} share one registration; readiness reported [{ird}]")]
-          else [("C20", s!"[wrong-token] readiness of descriptor {fd} reported token(s) [{ird}] but the waiting coroutine's token is {t}")]
+            [("C20", s!"[shared-token] descriptor {fd - fdBase}: read waiter {t} and write waiter {(aget wtok fd).getD 0} share one registration; readiness reported [{ird}]")]
+          else [("C20", s!"[wrong-token] readiness of descriptor {fd - fdBase} reported token(s) [{ird}] but the waiting coroutine's token is {t}")]
         | none => []      -- nobody is waiting for this descriptor any more (interest persists until removed)
       | _ => []
     -- a delivered readable event wakes the read waiter: it is no longer outstanding
@@ -93,7 +128,8 @@ def stepOp (d : D) (o io : String) : D :=
       | .del fd => if has d.st.R fd || has d.st.W fd then "del" else "del.noop"
       | .close fd => if has d.st.R fd || has d.st.W fd then "close.registered" else "close.plain"
       | .ev _ => if rd.isEmpty then "ev.none" else "ev.wake"
-    { st := s', outs := d.outs ++ [m], fails := d.fails ++ f20 ++ f21, labels := lab :: d.labels, want := want, rtok := rtok, wtok := wtok }
+    { st := s', outs := d.outs ++ [m], fails := d.fails ++ f20 ++ f21, labels := lab :: d.labels, want := want, rtok := rtok, wtok := wtok, freshW := freshW,
+      used := match op with | .addRead fd t => (t, fd) :: d.used | .addWrite fd t => (t, fd) :: d.used | _ => d.used }
 
 def drive (body impl : String) : Verdict :=
   let ops := splitTrim body "|"
